@@ -2,6 +2,7 @@
 import ast
 import copy
 import time
+import zlib
 
 import z3
 
@@ -83,7 +84,7 @@ class Contract:
     def __init__(self, qual, *, params=None, requires=(), ensures=(), modifies=(), loops=None, raises=None,
                  result=None, short=None, setup=None, replay=None, ghost=None, ghost_at=None, lets=None,
                  frame_fields=None, trusted=False, note="", raises_iff=False, prop=None, inline=(), region=None,
-                 ensures_raise=None, variant=None, witness=None, ghost_entry=(), decreases=None, ghost_exit=()):
+                 ensures_raise=None, variant=None, witness=None, ghost_entry=(), decreases=None, ghost_exit=(), creates=None, ghost_after=None):
         self.qual = qual
         self.params = params or {}
         self.requires = list(requires)
@@ -113,6 +114,8 @@ class Contract:
         self.ghost_entry = list(ghost_entry)
         self.decreases = decreases
         self.ghost_exit = list(ghost_exit)
+        self.creates = creates or {}
+        self.ghost_after = ghost_after or {}
 
     # ---- spec evaluation
     def spec_frame(self, fr):
@@ -125,12 +128,14 @@ class Contract:
         node = parse_spec(text)
         sf = self.spec_frame(fr)
         saved_len = len(st.pc)
+        ex.in_spec = getattr(ex, "in_spec", 0) + 1
         try:
             v = ex.ev(node, st, sf)
         except PyRaise as e:
             raise Undecided(f"contract clause raised {e.exc} while being evaluated: {text!r}")
         finally:
             del st.pc[saved_len:]
+            ex.in_spec -= 1
         return to_bool(v) if not (isinstance(v, z3.ArithRef)) else v
 
     def exec_ghost(self, ex, text, st, fr):
@@ -150,6 +155,24 @@ class Contract:
                 else:
                     for b in s.orelse:
                         self.exec_ghost(ex, ast.unparse(b), st, fr)
+            elif isinstance(s, ast.Expr) and isinstance(s.value, ast.Call) and isinstance(s.value.func, ast.Name) \
+                    and s.value.func.id in ("check", "arith"):
+                # intermediate assertion: proved (as its own obligation) and then assumed.  `arith` keeps only the
+                # quantifier-free part of the path condition (fewer assumptions: still sound) so that the
+                # nonlinear-arithmetic engine is not distracted by quantifiers.
+                from .execu import has_quant
+                phi = z3ify(to_bool(ex.ev(s.value.args[0], st, sf)))
+                nm = f"{ex.prop}.{self.short}.{s.value.func.id}.L{getattr(s, 'lineno', 0)}.{zlib.crc32(ast.unparse(s.value.args[0]).encode()) % 10000}"
+                if s.value.func.id == "arith":
+                    saved = st.pc
+                    st.pc = [p for p in saved if not has_quant(p)]
+                    try:
+                        ex.oblige(st, nm, phi, "ghost-assert", None, ast.unparse(s.value.args[0]))
+                    finally:
+                        st.pc = saved
+                else:
+                    ex.oblige(st, nm, phi, "ghost-assert", None, ast.unparse(s.value.args[0]))
+                st.assume(phi)
             elif isinstance(s, ast.Expr) and isinstance(s.value, ast.Call) and isinstance(s.value.func, ast.Name) \
                     and s.value.func.id in ("assume_lemma", "use"):
                 # instantiate a proved lemma (a python callable registered in specns returning a z3 fact)
@@ -199,6 +222,11 @@ class Contract:
             pre.locals = copy.deepcopy(loc)
             pre.ghost = dict(st.ghost)
             pre.pc = st.pc
+            # fields a constructor creates
+            for pth, t in self.creates.items():
+                e = parse_spec(pth)
+                base = ex.ev(e.value, cs, self.spec_frame(callee_fr))
+                base.fields[e.attr] = t[1] if (isinstance(t, tuple) and t[0] == "const") else make_value(ex, st, t, pth)
             # havoc the frame
             for p in self.modifies:
                 ex.havoc_path(p, cs, callee_fr)
@@ -565,6 +593,9 @@ class PyvcExecutor(StmtMixin, Executor):
         if c.witness is not None:
             eqs = []
             for path, val in c.witness.items():
+                if path.startswith("fact:"):
+                    eqs.append(z3ify(c.eval_spec(self, val, st, fr)))
+                    continue
                 cur = self.ev(parse_spec(path), st, c.spec_frame(fr))
                 eqs.append(self.witness_eq(cur, val))
             self.pre_info = {"pc": list(st.pc), "witness": st.pc[:n_before] + eqs, "goal": conj(reqs),
